@@ -382,3 +382,64 @@ def _ref_eval_nd(c: STensor, stride, deriv, nout) -> STensor:
         inv = list(range(ax + 2)) + [nd - 1] + list(range(ax + 2, nd - 1))
         cur = new.permute(inv)
     return cur
+
+
+def run_kernels_nd(ctx: Ctx) -> None:
+    """The n-D kernel front ends: cubic_bspline(stride, *args, derivative) and cubic_bspline2d / 3d for every documented stride form."""
+    prog = ctx.prog
+    K = "deepali.core.kernels"
+    f1 = prog.func(K, "cubic_bspline1d")
+    fN = {1: f1, 2: prog.func(K, "cubic_bspline2d"), 3: prog.func(K, "cubic_bspline3d")}
+    fG = prog.func(K, "cubic_bspline")
+    for f in list(fN.values()) + [fG]:
+        ctx.fn(f)
+    ctx.rule("T3.kernels", "cubic_bspline2d / cubic_bspline3d / cubic_bspline for strides given as one int, as separate ints, as a tuple or "
+                           "list (sx, sy[, sz]) — equal and unequal per axis — and derivative orders 0..2: the kernel is the tensor product of "
+                           "the 1-D kernels cubic_bspline1d(s_axis, derivative) with tensor axes in the order (..., Y, X), and the generic front "
+                           "end returns the kernel of the dimension its arguments name (derivative forwarded)")
+
+    def outer(ks):  # ks in (x, y[, z]) order -> tensor (.., Y, X)
+        out = ks[0]
+        for k in ks[1:]:
+            out = k.unsqueeze(-1).mul(out.unsqueeze(0)) if out.ndim == 1 else k.reshape([-1, 1, 1]).mul(out.unsqueeze(0))
+        return out
+
+    for D in (2, 3):
+        for strides in ((2,) * D, (2, 3, 1)[:D], (1, 2, 3)[:D]):
+            for d in (0, 1, 2):
+                def th(D=D, strides=strides, d=d):
+                    reset_relations()
+                    fresh_facts()
+                    it = make_interp(ctx)
+                    want = outer([it.call(f1, s, derivative=d) for s in strides])
+                    forms = [("tuple", (tuple(strides),)), ("list", (list(strides),)), ("separate ints", tuple(strides))]
+                    if len(set(strides)) == 1:
+                        forms.append(("one int", (strides[0],)))
+                    for fname, args in forms:
+                        for fn_name, f in ((f"cubic_bspline{D}d", fN[D]),) + ((("cubic_bspline", fG),) if fname != "one int" else ()):
+                            try:
+                                k = it.call(f, *args, derivative=d)
+                            except InterpError as e:
+                                return False, f"{fn_name}(stride as {fname} {strides}, derivative={d}) raises {e}"
+                            if list(k.shape) != list(want.shape):
+                                return False, (f"{fn_name}(stride as {fname} {strides}): kernel shape {list(k.shape)} expected {list(want.shape)} "
+                                               f"(tensor axes (..., Y, X) for strides (sx, sy, ...))")
+                            if not teq(k, want):
+                                return False, f"{fn_name}(stride as {fname} {strides}, derivative={d}) is not the tensor product of the 1-D kernels"
+                    return True, ""
+                _guard(ctx, "T3.kernels", f"D={D}:s={strides}:d={d}", fN[D], f"n-D kernel D={D} stride={strides} derivative={d}", th)
+
+    def th1():
+        reset_relations()
+        fresh_facts()
+        it = make_interp(ctx)
+        for s in (1, 3):
+            for d in (0, 1, 2):
+                want = it.call(f1, s, derivative=d)
+                for args in ((s,), ([s],), ((s,),)):
+                    if not teq(it.call(fG, *args, derivative=d), want):
+                        return False, f"cubic_bspline({args[0]!r}, derivative={d}) is not cubic_bspline1d({s}, derivative={d})"
+                if not teq(it.call(f1, [s], derivative=d), want):
+                    return False, f"cubic_bspline1d([{s}]) differs from cubic_bspline1d({s})"
+        return True, ""
+    _guard(ctx, "T3.kernels", "D=1", fG, "generic front end, one stride", th1)
